@@ -108,6 +108,10 @@ func IntFromString(str string, base int) (Object, error) {
 		if len(s) == 0 {
 			goto error
 		}
+		// Only one sign is allowed (the conversions below accept one too)
+		if s[0] == '+' || s[0] == '-' {
+			goto error
+		}
 	}
 
 	// Get rid of leading sigils and set convertBase
